@@ -157,7 +157,8 @@ def drive(run, tier, rng, focus):
                         elif op == "acct":
                             vs = [rng.choice(vec_pool[D]) for _ in range(rng.randint(2, 3))]
                             t, axis = layout_tensor(vs, rng, dtype)
-                            ev.update(i=i + 1, vs=vs, layout=[list(t.shape), axis])
+                            ev.update(i=i + 1, vs=vs, layout=[list(t.shape), axis],
+                                      flat=[int(v) for v in t.reshape(-1)], shape=list(t.shape), axis1=(axis % t.ndim) + 1)
                             t.flags.writeable = False
                             objs[i].accumulate(t, axis)
                             bags[i].extend(vs)
